@@ -69,7 +69,10 @@ def gen_lookups(rng, n, decls):
             arg = rng.choice(nsargs)
         else:
             arg = num(rng.randint(0, 2))
-        out.append({"name": name, "arg": arg, "where": rng.choice(["main", "main", "other"])})
+        where = rng.choice(["main", "main", "other", "cross"])
+        if where == "cross" and arg.get("op") not in ("str", "num"):
+            where = "other"          # the cross form evaluates key() from many context nodes: only context-free arguments
+        out.append({"name": name, "arg": arg, "where": where})
     return out
 
 
@@ -90,7 +93,12 @@ def render(decls, lookups, rng=None):
     for i, lk in enumerate(lookups):
         sel = "key('%s', %s)" % (key_qname(lk["name"], rng), xpgen.render(lk["arg"]))
         argsel = xpgen.render(lk["arg"])
-        ctx = "/" if lk["where"] == "main" else "document('other.xml')"
+        ctx = "/" if lk["where"] in ("main", "cross") else "document('other.xml')"
+        if lk["where"] == "cross":
+            # key() evaluated with context nodes of the OTHER document while the XSLT current node stays in the main document (12.2: "the
+            # same document as the context node"): the nodes of the other document that are members of key(...), each asked from itself
+            memb = "[count(. | %s) = count(%s)]" % (sel, sel)
+            sel = "document('other.xml')/descendant-or-self::node()%s | document('other.xml')//@*%s" % (memb, memb)
         # the argument is observed separately (same context) so that the spec is given the actual argument value
         lines.append('<xsl:for-each select="%s"><xsl:variable name="a" select=%s/><xsl:variable name="r" select=%s/></xsl:for-each>' % (ctx, quoteattr(argsel), quoteattr(sel)))
         lmap[len(lines)] = i
@@ -172,6 +180,8 @@ def run(res, tier, seed):
                 if r["val"]["t"] != "ns":
                     raise vlib.Infra("key() did not return a node-set")
                 ctxn = mapdoc(r["node"])
+                if lk["where"] == "cross":
+                    ctxn = [d2 + 1, 1, 0]            # the context nodes of the key() calls are in the other document
                 events.append({"e": "Key", "doc": ctxn[0], "ctx": ctxn[1], "name": xdm.cps(key_spec_name(lk["name"])), "arg": arg, "argtext": xpgen.render(lk["arg"]),
                                "result": [mapdoc(x) for x in r["val"]["v"]]})
                 nlook += 1
@@ -199,7 +209,7 @@ def run(res, tier, seed):
             res.violation("%s | %s" % (ev.get("argtext"), rj["msg"][:200]), [execs[e][0], execs[e][1], ev])
     res.cov["traces_validated_against_impl"] = nexec - len(bad)
     res.cov["distinct_nontrivial"] = len(nontriv)
-    res.cov["rule"] = ("seeded xsl:key declaration sets (1-3, a name possibly declared twice, a QName key name written with two prefixes of one namespace, the same local name in another namespace, declarations in an imported module; 15 match patterns over every node kind x 16 use expressions incl. current()) x 2 documents (main + document('other.xml')) x "
+    res.cov["rule"] = ("seeded xsl:key declaration sets (1-3, a name possibly declared twice, a QName key name written with two prefixes of one namespace, the same local name in another namespace, declarations in an imported module; 15 match patterns over every node kind x 16 use expressions incl. current()) x 2 documents (main + document('other.xml'); key() asked with the current node in that document, or only the CONTEXT node in the other document) x "
                        "lookup sequences of 2-5 key() calls with string / node-set / number arguments, each sequence in given, reversed and shuffled order; non-trivial = the lookup "
                        "returned at least one node; distinct by (declarations, key name, argument, context document, documents)")
     for ex in execs[:2]:
